@@ -298,6 +298,22 @@ pub fn main(args: &Args) -> i32 {
             p.insert_rows(Insert::into("D").row(vec![Value::Int(900000), Value::Str("sat".into()), Value::Null, Value::Null]))
         });
         refcount_scenarios(&mut o);
+        // UPDATE at a full pool: the entries the statement frees become available only when their LAST reference goes
+        // (two rows sharing the old string), and a cell re-assigned its own current string frees nothing
+        let mut p = fresh();
+        p.create_table("S", scols()).unwrap();
+        let used5 = p.verif_snapshot().pool.len() as i32;
+        p.insert_rows(Insert::into("S").rows(srows(0, 65534 - used5))).unwrap();
+        p.insert_rows(Insert::into("S").rows(vec![vec![Value::Int(700000), Value::Str("shared".into())], vec![Value::Int(700001), Value::Str("shared".into())]])).unwrap();
+        p = o.step(p, "strings", "update of both users of a shared string to a new string, pool full", 65535, |p| {
+            p.update_rows(msi::Update::table("S").set("V", Value::Str("Fresh".into())).with(Expr::col("K").ge(Expr::integer(700000))))
+        });
+        p = o.step(p, "strings", "update assigning a cell its own string and then nothing new, pool full", 65535, |p| {
+            p.update_rows(msi::Update::table("S").set("V", Value::Str("Fresh".into())).with(Expr::col("K").eq(Expr::integer(700000))))
+        });
+        let _ = o.step(p, "strings", "update of one of two users of a string to a new string, pool full", 65536, |p| {
+            p.update_rows(msi::Update::table("S").set("V", Value::Str("one more".into())).with(Expr::col("K").eq(Expr::integer(700000))))
+        });
         // a free entry BEFORE a string that the same statement re-uses: the statement needs one entry for its
         // one new string and exactly one is free (a first-fit allocator that duplicates the re-used string runs out)
         let mut p = fresh();
